@@ -6,6 +6,13 @@ use crate::prog::Program;
 use crate::scenario::Trace;
 
 pub mod c01;
+pub mod c02;
+pub mod c03;
+pub mod c04;
+pub mod c05;
+pub mod c12;
+pub mod c17;
+pub mod facts;
 
 #[derive(Clone, Debug)]
 pub struct Violation {
@@ -63,6 +70,12 @@ pub fn check(prop: &str, cx: &Cx, rep: &mut Report) {
     }
     match prop {
         "C01" => c01::check(cx, rep),
+        "C02" => c02::check(cx, rep),
+        "C03" => c03::check(cx, rep),
+        "C04" => c04::check(cx, rep),
+        "C05" => c05::check(cx, rep),
+        "C12" => c12::check(cx, rep),
+        "C17" => c17::check(cx, rep),
         _ => panic!("no oracle for {prop}"),
     }
 }
